@@ -1,1 +1,610 @@
-/- C16 — theorems (placeholder until the property is built). -/
+/-
+  C16 — Image datasets faithfully encode input rasters, masks, nodata and ROI.
+
+  Theorems about the executable model `Model/Dataset.lean` of `pandora/img_tools.py`, instantiated
+  (section 6) with the comparison operators and constants the translator regenerated from the source
+  on this run (`Generated/ImgTools.lean`).
+
+  What is proved, for every raster size, band count, sample values (NaN / ±inf included), nodata
+  value, mask raster (any integers), disparity pair or grids, classification / segmentation rasters,
+  every ROI and margin 4-tuple with `first ≤ last` and non-negative margins:
+    * `getWindow_eq_spec`    the window computed by `get_window` is the product of the closed
+                             intervals [first − m, last + m] ∩ [0, size − 1], and the ROI is refused
+                             exactly when one of them is empty;
+    * `read_spec`            every per-read clause of the specification holds of the model's dataset;
+    * `roi_spec`             a ROI read is the crop of the full read to that window, coordinates
+                             included, refused iff outside, and satisfies the per-read clauses with
+                             respect to the cropped input.
+  Two hypotheses depend on what the source says (they are `true` for the repaired source):
+    * `edgeFree`  with the strict comparisons `col_off > width`, `… < 0` of today's source the ROI
+                  must not start exactly one past the last column/row nor end exactly at −1
+                  (`getWindow_current_counterexample`: otherwise an empty window is returned);
+    * `maskOk`    with `input_mask > 0` the input mask must have no negative value
+                  (`mask_current_counterexample`: a negative value is treated as valid).
+  Modelled, not verified: rasterio (a windowed read is the crop of the full read; `out_dtype`
+  conversions), float32 representation of the samples, xarray.
+-/
+import PandoraModel.Model.Dataset
+import PandoraModel.Generated.ImgTools
+
+namespace Pandora.C16
+open Pandora.Dataset
+
+
+/-! ### 1. The window (`get_window`) -/
+
+theorem offTest_iff (s : Bool) (off size : Int) :
+    offTest s off size = true ↔ (if s then off > size else off ≥ size) := by
+  cases s <;> simp [offTest]
+
+theorem endTest_iff (s : Bool) (e : Int) :
+    endTest s e = true ↔ (if s then e < 0 else e ≤ 0) := by
+  cases s <;> simp [endTest]
+
+/-- one axis: refusal -/
+theorem axis_refused (sOff sEnd : Bool) (first last mLo mHi size : Int)
+    (h1 : first ≤ last) (h2 : 0 ≤ mLo) (h3 : 0 ≤ mHi) (hs : 0 < size)
+    (e1 : sOff = true → first - mLo ≠ size) (e2 : sEnd = true → last + mHi ≠ -1) :
+    (offTest sOff (max (first - mLo) 0) size = true ∨
+      endTest sEnd (max (first - mLo) 0 + (last - max (first - mLo) 0 + mHi + 1)) = true)
+      ↔ clipAxis first last mLo mHi size = none := by
+  rw [offTest_iff, endTest_iff]
+  simp only [clipAxis]
+  cases sOff <;> cases sEnd <;> simp at e1 e2 ⊢ <;> omega
+
+theorem axis_kept (first last mLo mHi size : Int) (lo hi : Int)
+    (h : clipAxis first last mLo mHi size = some (lo, hi)) :
+    lo = max (first - mLo) 0 ∧
+    (if lo + (last - lo + mHi + 1) > size then size - lo else last - lo + mHi + 1) = hi - lo + 1 := by
+  simp only [clipAxis] at h
+  split at h
+  · simp at h
+    obtain ⟨rfl, rfl⟩ := h
+    refine ⟨rfl, ?_⟩
+    split <;> omega
+  · simp at h
+
+theorem getWindow_eq_spec (p : Params) (roi : Roi) (width height : Int)
+    (hwf : roi.wf = true) (hw : 0 < width) (hh : 0 < height)
+    (hedge : edgeFree p roi width height = true) :
+    getWindow p roi width height = windowSpec roi width height := by
+  obtain ⟨cf, cl, rf, rl, ml, mu, mr, md⟩ := roi
+  simp only [Roi.wf, Bool.and_eq_true, decide_eq_true_eq] at hwf
+  obtain ⟨⟨⟨⟨⟨h1, h2⟩, h3⟩, h4⟩, h5⟩, h6⟩ := hwf
+  simp only [edgeFree, Bool.and_eq_true, Bool.or_eq_true, Bool.not_eq_true', decide_eq_true_eq] at hedge
+  obtain ⟨⟨⟨e1, e2⟩, e3⟩, e4⟩ := hedge
+  have hc := axis_refused p.colOffStrict p.colEndStrict cf cl ml mr width h1 h3 h5 hw
+    (fun h => by rcases e1 with e | e; · rw [h] at e; cases e
+                 · exact e)
+    (fun h => by rcases e3 with e | e; · rw [h] at e; cases e
+                 · exact e)
+  have hr := axis_refused p.rowOffStrict p.rowEndStrict rf rl mu md height h2 h4 h6 hh
+    (fun h => by rcases e2 with e | e; · rw [h] at e; cases e
+                 · exact e)
+    (fun h => by rcases e4 with e | e; · rw [h] at e; cases e
+                 · exact e)
+  simp only [getWindow, windowSpec]
+  cases hcc : clipAxis cf cl ml mr width with
+  | none =>
+    have := hc.2 hcc
+    rw [if_pos]
+    rcases this with t | t <;> simp [t]
+  | some cw =>
+    obtain ⟨c0, c1⟩ := cw
+    cases hrr : clipAxis rf rl mu md height with
+    | none =>
+      have := hr.2 hrr
+      rw [if_pos]
+      rcases this with t | t <;> simp [t]
+    | some rw_ =>
+      obtain ⟨r0, r1⟩ := rw_
+      have nc : ¬ _ := fun h => by have := hc.1 h; rw [hcc] at this; cases this
+      have nr : ¬ _ := fun h => by have := hr.1 h; rw [hrr] at this; cases this
+      simp only [not_or, Bool.not_eq_true] at nc nr
+      rw [if_neg (by simp [nc.1, nc.2, nr.1, nr.2])]
+      obtain ⟨hc0, hc1⟩ := axis_kept _ _ _ _ _ _ _ hcc
+      obtain ⟨hr0, hr1⟩ := axis_kept _ _ _ _ _ _ _ hrr
+      subst hc0 hr0
+      simp only [hc1, hr1]
+
+/-! ### 2. Bounded quantifiers, nodata detection, one mask cell -/
+
+theorem allB_iff (n : Nat) (f : Nat → Bool) : allB n f = true ↔ ∀ i, i < n → f i = true := by
+  simp [allB, List.all_eq_true, List.mem_range]
+
+theorem anyB_iff (n : Nat) (f : Nat → Bool) : anyB n f = true ↔ ∃ i, i < n ∧ f i = true := by
+  simp [anyB, List.any_eq_true, List.mem_range]
+
+theorem allRC_iff (rows cols : Nat) (f : Nat → Nat → Bool) :
+    allRC rows cols f = true ↔ ∀ r, r < rows → ∀ c, c < cols → f r c = true := by
+  simp [allRC, List.all_eq_true, List.mem_range]
+
+theorem anyRC_iff (rows cols : Nat) (f : Nat → Nat → Bool) :
+    anyRC rows cols f = true ↔ ∃ r, r < rows ∧ ∃ c, c < cols ∧ f r c = true := by
+  simp [anyRC, List.any_eq_true, List.mem_range]
+
+theorem anyRC_false_iff (rows cols : Nat) (f : Nat → Nat → Bool) :
+    anyRC rows cols f = false ↔ ∀ r, r < rows → ∀ c, c < cols → f r c = false := by
+  rw [← Bool.not_eq_true, anyRC_iff]
+  constructor
+  · intro h r hr c hc
+    cases hf : f r c with
+    | false => rfl
+    | true => exact absurd ⟨r, hr, c, hc, hf⟩ h
+  · rintro h ⟨r, hr, c, hc, hf⟩
+    rw [h r hr c hc] at hf
+    cases hf
+
+theorem anyB_congr (n : Nat) (f g : Nat → Bool) (h : ∀ i, i < n → f i = g i) : anyB n f = anyB n g := by
+  cases hg : anyB n g with
+  | true =>
+    obtain ⟨i, hi, hgi⟩ := (anyB_iff n g).1 hg
+    exact (anyB_iff n f).2 ⟨i, hi, by rw [h i hi]; exact hgi⟩
+  | false =>
+    cases hf : anyB n f with
+    | false => rfl
+    | true =>
+      obtain ⟨i, hi, hfi⟩ := (anyB_iff n f).1 hf
+      have : anyB n g = true := (anyB_iff n g).2 ⟨i, hi, by rw [← h i hi]; exact hfi⟩
+      rw [hg] at this
+      cases this
+
+theorem detect_eq_same (nodata s : FVal) : detect nodata s = sameAsNodata nodata s := by
+  cases nodata <;> cases s <;> simp [detect, sameAsNodata, FVal.isNan, FVal.isInf, FVal.npEq]
+  rename_i a b
+  by_cases h : a = b
+  · simp [h]
+  · have : ¬ b = a := fun e => h e.symm
+    simp [h, this]
+
+theorem cropInput_zero (inp : Input) : cropInput inp 0 0 inp.rows inp.cols = inp := by
+  obtain ⟨rows, cols, nb, bn, im, nd, mask, disp, classif, segm⟩ := inp
+  cases mask <;> cases disp <;> cases classif <;> cases segm <;> rfl
+
+/-- the mask cell by cases -/
+theorem mskValue_cases (p : Params) (hk : p.known = true) (mv : Option Int) (hit : Bool)
+    (hm : p.maskCmp = .gt → 0 ≤ mv.getD 0) :
+    (mskValue p mv hit = 1 ↔ hit = true) ∧
+    ((mskValue p mv hit ≠ 0 ∧ mskValue p mv hit ≠ 1) ↔ (mv.getD 0 ≠ 0 ∧ hit = false)) ∧
+    (mskValue p mv hit = 0 ↔ (mv.getD 0 = 0 ∧ hit = false)) := by
+  simp only [Params.known, Bool.and_eq_true, decide_eq_true_eq] at hk
+  obtain ⟨⟨hv, hn⟩, _⟩ := hk
+  cases hit <;> cases mv with
+  | none => simp [mskValue, hv, hn]
+  | some v =>
+    simp only [Option.getD_some] at hm
+    cases hc : p.maskCmp with
+    | ne =>
+      by_cases h0 : v = 0 <;> simp [mskValue, hv, hn, hc, maskTest, Params.invalidValue, h0]
+    | gt =>
+      have := hm hc
+      by_cases h0 : v = 0
+      · simp [mskValue, hv, hn, hc, maskTest, h0]
+      · have : v > 0 := by omega
+        simp [mskValue, hv, hn, hc, maskTest, Params.invalidValue, h0, this]
+
+/-! ### 3. One read: every clause of the specification -/
+
+section Read
+variable (p : Params) (inp : Input) (ro co rows cols : Nat)
+
+/-- the model's per-pixel nodata hit is the specification's "some band carries the nodata value" -/
+theorem hit_eq (r c : Nat) :
+    (anyB inp.nbands fun b => detect inp.nodata (inp.im b (r + ro) (c + co)))
+      = (cropInput inp ro co rows cols).noDataAt r c := by
+  unfold Input.noDataAt
+  apply anyB_congr
+  intro b _
+  rw [detect_eq_same]
+  rfl
+
+theorem hit_eq_fun :
+    (fun r c => anyB inp.nbands fun b => detect inp.nodata (inp.im b (r + ro) (c + co)))
+      = (cropInput inp ro co rows cols).noDataAt := by
+  funext r c
+  exact hit_eq inp ro co rows cols r c
+
+theorem read_samples : specSamples (cropInput inp ro co rows cols) (readDS p inp ro co rows cols) = true := by
+  simp only [specSamples, Bool.and_eq_true, beq_iff_eq, allB_iff, allRC_iff, Bool.or_eq_true, decide_eq_true_eq]
+  refine ⟨⟨⟨rfl, rfl⟩, rfl⟩, ?_⟩
+  intro b _ r _ c _
+  show _ ∨ (readDS p inp ro co rows cols).im b r c = inp.im b (r + ro) (c + co)
+  simp only [readDS]
+  split
+  · rename_i h
+    left
+    simp only [Bool.and_eq_true] at h
+    obtain ⟨⟨_, hnf⟩, hd⟩ := h
+    rw [detect_eq_same] at hd
+    exact ⟨hnf, hd⟩
+  · right; rfl
+
+theorem read_bandNames : specBandNames (cropInput inp ro co rows cols) (readDS p inp ro co rows cols) = true := by
+  simp only [specBandNames, readDS, cropInput]
+  split <;> simp
+
+theorem read_replaced (hk : p.known = true) :
+    specReplaced (cropInput inp ro co rows cols) (readDS p inp ro co rows cols) = true := by
+  simp only [Params.known, Bool.and_eq_true, decide_eq_true_eq] at hk
+  simp only [specReplaced, allB_iff, allRC_iff, Bool.or_eq_true, Bool.not_eq_true', decide_eq_true_eq]
+  intro b hb r hr c hc
+  cases hs : (nonFinite (cropInput inp ro co rows cols).nodata &&
+      sameAsNodata (cropInput inp ro co rows cols).nodata ((cropInput inp ro co rows cols).im b r c)) with
+  | false => left; rfl
+  | true =>
+    right
+    simp only [Bool.and_eq_true] at hs
+    obtain ⟨hnf, hsame⟩ := hs
+    have hd : detect inp.nodata (inp.im b (r + ro) (c + co)) = true := by rw [detect_eq_same]; exact hsame
+    have hany : anyRC rows cols (fun r c => anyB inp.nbands fun b => detect inp.nodata (inp.im b (r + ro) (c + co))) = true :=
+      (anyRC_iff _ _ _).2 ⟨r, hr, c, hc, (anyB_iff _ _).2 ⟨b, hb, hd⟩⟩
+    simp only [readDS, hany, Bool.true_and]
+    have : (inp.nodata.isNan || inp.nodata.isInf) = true := hnf
+    rw [this, hd]
+    simp [hk.2]
+end Read
+
+section Mask
+variable (p : Params) (inp : Input) (ro co rows cols : Nat)
+
+theorem maskAt_crop (r c : Nat) :
+    (cropInput inp ro co rows cols).maskAt r c = (inp.mask.map fun mf => mf (r + ro) (c + co)).getD 0 := by
+  unfold Input.maskAt cropInput
+  cases inp.mask <;> rfl
+
+theorem anyHit_eq :
+    anyRC rows cols (fun r c => anyB inp.nbands fun b => detect inp.nodata (inp.im b (r + ro) (c + co)))
+      = anyRC rows cols (cropInput inp ro co rows cols).noDataAt := by
+  rw [hit_eq_fun inp ro co rows cols]
+
+theorem read_mskView (r c : Nat) :
+    (readDS p inp ro co rows cols).mskView r c =
+      if (inp.mask.isNone && !anyRC rows cols (cropInput inp ro co rows cols).noDataAt) = true then 0
+      else mskValue p (inp.mask.map fun mf => mf (r + ro) (c + co)) ((cropInput inp ro co rows cols).noDataAt r c) := by
+  simp only [DS.mskView, readDS, hit_eq inp ro co rows cols]
+  by_cases h : (inp.mask.isNone && !anyRC rows cols (cropInput inp ro co rows cols).noDataAt) = true
+  · rw [if_pos h, if_pos h]
+  · rw [if_neg h, if_neg h]
+
+theorem read_msk_isNone :
+    (readDS p inp ro co rows cols).msk.isNone
+      = (inp.mask.isNone && !anyRC rows cols (cropInput inp ro co rows cols).noDataAt) := by
+  simp only [readDS, anyHit_eq inp ro co rows cols]
+  split <;> simp_all
+
+/-- the three classes of a mask cell -/
+theorem read_msk_cell (hk : p.known = true) (hm : maskOk p (cropInput inp ro co rows cols) = true)
+    (r c : Nat) (hr : r < rows) (hc : c < cols) :
+    let inp' := cropInput inp ro co rows cols
+    let v := (readDS p inp ro co rows cols).mskView r c
+    (v = 1 ↔ inp'.noDataAt r c = true) ∧
+    ((v ≠ 0 ∧ v ≠ 1) ↔ (inp'.maskAt r c ≠ 0 ∧ inp'.noDataAt r c = false)) ∧
+    (v = 0 ↔ (inp'.maskAt r c = 0 ∧ inp'.noDataAt r c = false)) := by
+  intro inp' v
+  have hv : v = _ := read_mskView p inp ro co rows cols r c
+  by_cases hnone : (inp.mask.isNone && !anyRC rows cols inp'.noDataAt) = true
+  · rw [if_pos hnone] at hv
+    simp only [Bool.and_eq_true, Bool.not_eq_true', Option.isNone_iff_eq_none] at hnone
+    obtain ⟨hmn, hany⟩ := hnone
+    have hnd : inp'.noDataAt r c = false := (anyRC_false_iff _ _ _).1 hany r hr c hc
+    have hma : inp'.maskAt r c = 0 := by
+      rw [maskAt_crop, hmn]; rfl
+    rw [hv, hnd, hma]
+    simp
+  · rw [if_neg hnone] at hv
+    rw [hv, maskAt_crop]
+    apply mskValue_cases p hk
+    intro hgt
+    rw [← maskAt_crop inp ro co rows cols]
+    simp only [maskOk, hgt, allRC_iff, decide_eq_true_eq] at hm
+    exact hm r hr c hc
+
+theorem read_nodataIff (hk : p.known = true) (hm : maskOk p (cropInput inp ro co rows cols) = true) :
+    specNodataIff (cropInput inp ro co rows cols) (readDS p inp ro co rows cols) = true := by
+  simp only [specNodataIff, allRC_iff, beq_iff_eq]
+  intro r hr c hc
+  have h := (read_msk_cell p inp ro co rows cols hk hm r c hr hc).1
+  cases hn : (cropInput inp ro co rows cols).noDataAt r c with
+  | true => simpa using h.2 hn
+  | false =>
+    simp only [decide_eq_false_iff_not]
+    intro hv
+    rw [h.1 hv] at hn
+    cases hn
+
+theorem read_invalidIff (hk : p.known = true) (hm : maskOk p (cropInput inp ro co rows cols) = true) :
+    specInvalidIff (cropInput inp ro co rows cols) (readDS p inp ro co rows cols) = true := by
+  simp only [specInvalidIff, allRC_iff, beq_iff_eq]
+  intro r hr c hc
+  have h := (read_msk_cell p inp ro co rows cols hk hm r c hr hc).2.1
+  rw [Bool.eq_iff_iff]
+  simp only [Bool.and_eq_true, decide_eq_true_eq, Bool.not_eq_true']
+  exact h
+
+theorem read_validOtherwise (hk : p.known = true) (hm : maskOk p (cropInput inp ro co rows cols) = true) :
+    specValidOtherwise (cropInput inp ro co rows cols) (readDS p inp ro co rows cols) = true := by
+  simp only [specValidOtherwise, allRC_iff, beq_iff_eq]
+  intro r hr c hc
+  have h := (read_msk_cell p inp ro co rows cols hk hm r c hr hc).2.2
+  rw [Bool.eq_iff_iff]
+  simp only [Bool.and_eq_true, decide_eq_true_eq, Bool.not_eq_true']
+  exact h
+
+theorem read_noMask : specNoMask (cropInput inp ro co rows cols) (readDS p inp ro co rows cols) = true := by
+  simp only [specNoMask, read_msk_isNone]
+  have hdim : (cropInput inp ro co rows cols).rows = rows ∧ (cropInput inp ro co rows cols).cols = cols := ⟨rfl, rfl⟩
+  have hmask : (cropInput inp ro co rows cols).mask.isNone = inp.mask.isNone := by
+    unfold cropInput; cases inp.mask <;> rfl
+  rw [hdim.1, hdim.2, hmask]
+  cases hmn : inp.mask.isNone <;> cases hany : anyRC rows cols (cropInput inp ro co rows cols).noDataAt <;> simp
+  -- mask none, no nodata: nothing to flag
+  rw [anyRC_false_iff] at hany ⊢
+  intro r hr c hc
+  have hma : (cropInput inp ro co rows cols).maskAt r c = 0 := by
+    rw [maskAt_crop]
+    rw [Option.isNone_iff_eq_none] at hmn
+    rw [hmn]; rfl
+  simp [hany r hr c hc, hma]
+end Mask
+
+section Rest
+variable (p : Params) (inp : Input) (ro co rows cols : Nat)
+
+theorem read_disparity : specDisparity (cropInput inp ro co rows cols) (readDS p inp ro co rows cols) = true := by
+  unfold specDisparity
+  have hd : (cropInput inp ro co rows cols).disp =
+      match inp.disp with
+      | .grid g => .grid fun k r c => g k (r + ro) (c + co)
+      | d => d := rfl
+  rw [hd]
+  simp only [readDS]
+  cases inp.disp with
+  | absent => rfl
+  | null => rfl
+  | pair a b => simp [allRC_iff]
+  | grid g => simp [allB_iff, allRC_iff]
+
+theorem read_classifSegm : specClassifSegm (cropInput inp ro co rows cols) (readDS p inp ro co rows cols) = true := by
+  unfold specClassifSegm
+  simp only [readDS, cropInput]
+  cases inp.classif <;> cases inp.segm <;> simp [allB_iff, allRC_iff]
+
+theorem read_coords : specCoords ro co (readDS p inp ro co rows cols) = true := by
+  simp [specCoords, readDS, allB_iff]
+
+/-- **Every per-read clause holds of the model** (any window position and size). -/
+theorem read_spec_window (hk : p.known = true) (hm : maskOk p (cropInput inp ro co rows cols) = true) :
+    specRead (cropInput inp ro co rows cols) ro co (readDS p inp ro co rows cols) = true := by
+  simp only [specRead, specReadClauses, List.all_cons, List.all_nil, Bool.and_true, Bool.and_eq_true]
+  exact ⟨read_samples p inp ro co rows cols, read_bandNames p inp ro co rows cols,
+    read_replaced p inp ro co rows cols hk, read_nodataIff p inp ro co rows cols hk hm,
+    read_invalidIff p inp ro co rows cols hk hm, read_validOtherwise p inp ro co rows cols hk hm,
+    read_noMask p inp ro co rows cols, read_disparity p inp ro co rows cols,
+    read_classifSegm p inp ro co rows cols, read_coords p inp ro co rows cols⟩
+end Rest
+
+/-- **Full read.** -/
+theorem read_spec (p : Params) (inp : Input) (hk : p.known = true) (hm : maskOk p inp = true) :
+    specRead inp 0 0 (readDS p inp 0 0 inp.rows inp.cols) = true := by
+  have h := read_spec_window p inp 0 0 inp.rows inp.cols hk (by rw [cropInput_zero]; exact hm)
+  rw [cropInput_zero] at h
+  exact h
+
+/-! ### 4. A ROI read is the crop of the full read -/
+
+section Crop
+variable (p : Params) (inp : Input) (ro co rows cols : Nat)
+
+theorem noDataAt_shift (r c : Nat) :
+    (cropInput inp 0 0 inp.rows inp.cols).noDataAt (r + ro) (c + co) = (cropInput inp ro co rows cols).noDataAt r c := rfl
+
+theorem anyHit_mono (hr : ro + rows ≤ inp.rows) (hc : co + cols ≤ inp.cols)
+    (h : anyRC rows cols (cropInput inp ro co rows cols).noDataAt = true) :
+    anyRC inp.rows inp.cols (cropInput inp 0 0 inp.rows inp.cols).noDataAt = true := by
+  obtain ⟨r, hr', c, hc', hh⟩ := (anyRC_iff _ _ _).1 h
+  exact (anyRC_iff _ _ _).2 ⟨r + ro, by omega, c + co, by omega, hh⟩
+
+theorem crop_im (hr : ro + rows ≤ inp.rows) (hc : co + cols ≤ inp.cols)
+    (b r c : Nat) (hb : b < inp.nbands) (hr' : r < rows) (hc' : c < cols) :
+    (readDS p inp ro co rows cols).im b r c = (readDS p inp 0 0 inp.rows inp.cols).im b (r + ro) (c + co) := by
+  simp only [readDS, Nat.add_zero]
+  cases hd : detect inp.nodata (inp.im b (r + ro) (c + co)) with
+  | false => simp
+  | true =>
+    have h1 : anyRC rows cols (fun r c => anyB inp.nbands fun b => detect inp.nodata (inp.im b (r + ro) (c + co))) = true :=
+      (anyRC_iff _ _ _).2 ⟨r, hr', c, hc', (anyB_iff _ _).2 ⟨b, hb, hd⟩⟩
+    have h2 : anyRC inp.rows inp.cols (fun r c => anyB inp.nbands fun b => detect inp.nodata (inp.im b r c)) = true :=
+      (anyRC_iff _ _ _).2 ⟨r + ro, by omega, c + co, by omega, (anyB_iff _ _).2 ⟨b, hb, hd⟩⟩
+    rw [h1, h2]
+
+theorem crop_mskView (hk : p.known = true) (hr : ro + rows ≤ inp.rows) (hc : co + cols ≤ inp.cols)
+    (r c : Nat) (hr' : r < rows) (hc' : c < cols) :
+    (readDS p inp ro co rows cols).mskView r c = (readDS p inp 0 0 inp.rows inp.cols).mskView (r + ro) (c + co) := by
+  rw [read_mskView, read_mskView]
+  simp only [Nat.add_zero, noDataAt_shift inp ro co rows cols]
+  cases hmn : inp.mask.isNone with
+  | false => simp
+  | true =>
+    simp only [Bool.true_and, Bool.not_eq_true']
+    cases ho : anyRC rows cols (cropInput inp ro co rows cols).noDataAt with
+    | true =>
+      rw [anyHit_mono inp ro co rows cols hr hc ho]
+    | false =>
+      have hnd : (cropInput inp ro co rows cols).noDataAt r c = false := (anyRC_false_iff _ _ _).1 ho r hr' c hc'
+      rw [Option.isNone_iff_eq_none] at hmn
+      simp only [Params.known, Bool.and_eq_true, decide_eq_true_eq] at hk
+      cases anyRC inp.rows inp.cols (cropInput inp 0 0 inp.rows inp.cols).noDataAt <;>
+        simp [hnd, hmn, mskValue, hk.1.1]
+
+theorem read_crop (hk : p.known = true) (hr : ro + rows ≤ inp.rows) (hc : co + cols ≤ inp.cols) :
+    specCrop ⟨(co : Int), (ro : Int), (cols : Int), (rows : Int)⟩
+      (readDS p inp 0 0 inp.rows inp.cols) (readDS p inp ro co rows cols) = true := by
+  simp only [specCrop, Int.toNat_natCast, Bool.and_eq_true, decide_eq_true_eq, beq_iff_eq, allB_iff, allRC_iff]
+  refine ⟨⟨⟨⟨⟨⟨⟨⟨⟨⟨rfl, rfl⟩, rfl⟩, rfl⟩, ?_⟩, ?_⟩, ?_⟩, ?_⟩, ?_⟩, ?_⟩, ?_⟩
+  · intro b hb r hr' c hc'
+    exact crop_im p inp ro co rows cols hr hc b r c hb hr' hc'
+  · intro r hr' c hc'
+    exact crop_mskView p inp ro co rows cols hk hr hc r c hr' hc'
+  · simp only [readDS]
+    cases inp.disp <;> simp [allB_iff, allRC_iff]
+  · simp only [readDS]
+    cases inp.classif <;> simp [allB_iff, allRC_iff]
+  · simp only [readDS]
+    cases inp.segm <;> simp [allRC_iff]
+  · intro i _
+    simp only [readDS]
+    omega
+  · intro j _
+    simp only [readDS]
+    omega
+end Crop
+
+theorem windowSpec_inside (roi : Roi) (W H : Int) (w : Window) (h : windowSpec roi W H = some w) :
+    0 ≤ w.colOff ∧ 0 ≤ w.rowOff ∧ 0 < w.width ∧ 0 < w.height ∧ w.colOff + w.width ≤ W ∧ w.rowOff + w.height ≤ H := by
+  simp only [windowSpec, clipAxis] at h
+  split at h
+  · rename_i c0 c1 r0 r1 hc hr
+    simp only [Option.some.injEq] at h
+    subst h
+    split at hc <;> simp only [Option.some.injEq, Prod.mk.injEq, reduceCtorEq] at hc
+    split at hr <;> simp only [Option.some.injEq, Prod.mk.injEq, reduceCtorEq] at hr
+    obtain ⟨rfl, rfl⟩ := hc
+    obtain ⟨rfl, rfl⟩ := hr
+    simp only
+    omega
+  · cases h
+
+theorem maskOk_crop (p : Params) (inp : Input) (ro co rows cols : Nat)
+    (hr : ro + rows ≤ inp.rows) (hc : co + cols ≤ inp.cols) (hm : maskOk p inp = true) :
+    maskOk p (cropInput inp ro co rows cols) = true := by
+  unfold maskOk at hm ⊢
+  cases hcmp : p.maskCmp with
+  | ne => rfl
+  | gt =>
+    simp only [hcmp, allRC_iff, decide_eq_true_eq] at hm ⊢
+    intro r hr' c hc'
+    have hr'' : r < rows := hr'
+    have hc'' : c < cols := hc'
+    have := hm (r + ro) (by omega) (c + co) (by omega)
+    rw [maskAt_crop]
+    unfold Input.maskAt at this
+    cases hmk : inp.mask with
+    | none => simp
+    | some mf => rw [hmk] at this; simpa using this
+
+
+/-- **`roi_eq_crop`, `roi_coords`, `roi_outside_refused`.** -/
+theorem roi_spec (p : Params) (inp : Input) (roi : Roi) (hk : p.known = true)
+    (hin : inp.wf = true) (hwf : roi.wf = true)
+    (hedge : edgeFree p roi inp.cols inp.rows = true) (hm : maskOk p inp = true) :
+    specRoi inp roi (readDS p inp 0 0 inp.rows inp.cols) (createDataset p inp (some roi)) = true := by
+  simp only [Input.wf, Bool.and_eq_true, decide_eq_true_eq, beq_iff_eq] at hin
+  obtain ⟨⟨⟨_, _⟩, hrows⟩, hcols⟩ := hin
+  have hw := getWindow_eq_spec p roi inp.cols inp.rows hwf (by omega) (by omega) hedge
+  simp only [specRoi, specRoiClauses, createDataset, hw]
+  cases hs : windowSpec roi inp.cols inp.rows with
+  | none => simp
+  | some w =>
+    obtain ⟨h1, h2, h3, h4, h5, h6⟩ := windowSpec_inside roi _ _ w hs
+    simp only [List.all_cons, List.all_append, Bool.true_and, Bool.and_eq_true]
+    have hro : ((w.rowOff.toNat : Nat) : Int) = w.rowOff := Int.toNat_of_nonneg h2
+    have hco : ((w.colOff.toNat : Nat) : Int) = w.colOff := Int.toNat_of_nonneg h1
+    have hhh : ((w.height.toNat : Nat) : Int) = w.height := Int.toNat_of_nonneg (by omega)
+    have hww : ((w.width.toNat : Nat) : Int) = w.width := Int.toNat_of_nonneg (by omega)
+    have hr : w.rowOff.toNat + w.height.toNat ≤ inp.rows := by omega
+    have hc : w.colOff.toNat + w.width.toNat ≤ inp.cols := by omega
+    refine ⟨?_, ?_⟩
+    · have := read_crop p inp w.rowOff.toNat w.colOff.toNat w.height.toNat w.width.toNat hk hr hc
+      rw [hro, hco, hhh, hww] at this
+      exact ⟨this, rfl⟩
+    · exact read_spec_window p inp _ _ _ _ hk (maskOk_crop p inp _ _ _ _ hr hc hm)
+
+/-! ### 5. The two source-dependent hypotheses: vacuous after the repair, needed today -/
+
+theorem edgeFree_fixed (roi : Roi) (w h : Int) : edgeFree Params.fixed roi w h = true := rfl
+theorem maskOk_fixed (inp : Input) : maskOk Params.fixed inp = true := rfl
+
+theorem getWindow_current_counterexample :
+    (⟨6, 7, 0, 2, 0, 0, 0, 0⟩ : Roi).wf = true ∧
+    getWindow Params.current ⟨6, 7, 0, 2, 0, 0, 0, 0⟩ 6 5 = some ⟨6, 0, 0, 3⟩ ∧
+    windowSpec ⟨6, 7, 0, 2, 0, 0, 0, 0⟩ 6 5 = none ∧
+    getWindow Params.current ⟨-3, -1, 0, 2, 0, 0, 0, 0⟩ 6 5 = some ⟨0, 0, 0, 3⟩ ∧
+    windowSpec ⟨-3, -1, 0, 2, 0, 0, 0, 0⟩ 6 5 = none := by decide
+
+def exInput : Input :=
+  { rows := 2, cols := 3, nbands := 2, bandNames := [some "r", some "g"],
+    im := fun b r c => if b = 1 ∧ r = 0 ∧ c = 2 then .nan else .num (b + 2 * r + c : Nat),
+    nodata := .nan,
+    mask := some fun r c => if r = 1 ∧ c = 0 then 3 else 0,
+    disp := .pair (-2) 3, classif := none, segm := some fun r c => r + c }
+
+example : exInput.wf = true ∧ maskOk Params.current exInput = true := by decide
+
+def negMaskInput : Input :=
+  { rows := 1, cols := 2, nbands := 1, bandNames := [none],
+    im := fun _ _ c => .num (c : Nat), nodata := .num (-9999),
+    mask := some fun _ c => if c = 0 then -1 else 0,
+    disp := .absent, classif := none, segm := none }
+
+theorem mask_current_counterexample :
+    negMaskInput.wf = true ∧
+    (readDS Params.current negMaskInput 0 0 1 2).mskView 0 0 = 0 ∧
+    specInvalidIff negMaskInput (readDS Params.current negMaskInput 0 0 1 2) = false ∧
+    specInvalidIff negMaskInput (readDS Params.fixed negMaskInput 0 0 1 2) = true := by decide
+
+/-- the specification is not trivially true: a dataset whose mask ignores the NaN sample is rejected -/
+example : specNodataIff exInput { readDS Params.current exInput 0 0 2 3 with msk := none } = false := by decide
+example : specRead exInput 0 0 (readDS Params.current exInput 0 0 2 3) = true := by decide
+example : (⟨1, 3, 1, 4, 1, 0, 2, 1⟩ : Roi).wf = true ∧ edgeFree Params.current ⟨1, 3, 1, 4, 1, 0, 2, 1⟩ 3 2 = true ∧
+    windowSpec ⟨1, 3, 1, 4, 1, 0, 2, 1⟩ 3 2 = some ⟨0, 1, 3, 1⟩ := by decide
+example : specRoi exInput ⟨1, 3, 1, 4, 1, 0, 2, 1⟩ (readDS Params.current exInput 0 0 2 3)
+    (createDataset Params.current exInput (some ⟨1, 3, 1, 4, 1, 0, 2, 1⟩)) = true := by decide
+
+/-! ### 6. The source, as regenerated on this run -/
+
+/-- the constants of the source are the documented ones (valid 0, no-data 1, replacement −9999) -/
+theorem source_params_known : Generated.imgToolsParams.known = true := by decide
+
+/-- `get_window` of the source: the clipped window, refused iff outside (today: for ROIs not exactly
+    at the image edge — `edgeFree` is `true` for every ROI once the comparisons are non-strict) -/
+theorem source_getWindow (roi : Roi) (width height : Int)
+    (hwf : roi.wf = true) (hw : 0 < width) (hh : 0 < height)
+    (hedge : edgeFree Generated.imgToolsParams roi width height = true) :
+    getWindow Generated.imgToolsParams roi width height = windowSpec roi width height :=
+  getWindow_eq_spec _ roi width height hwf hw hh hedge
+
+/-- `create_dataset_from_inputs` of the source without ROI satisfies every per-read clause -/
+theorem source_read_spec (inp : Input) (hm : maskOk Generated.imgToolsParams inp = true) :
+    specRead inp 0 0 (readDS Generated.imgToolsParams inp 0 0 inp.rows inp.cols) = true :=
+  read_spec _ inp source_params_known hm
+
+/-- `create_dataset_from_inputs` of the source with a ROI -/
+theorem source_roi_spec (inp : Input) (roi : Roi) (hin : inp.wf = true) (hwf : roi.wf = true)
+    (hedge : edgeFree Generated.imgToolsParams roi inp.cols inp.rows = true)
+    (hm : maskOk Generated.imgToolsParams inp = true) :
+    specRoi inp roi (readDS Generated.imgToolsParams inp 0 0 inp.rows inp.cols)
+      (createDataset Generated.imgToolsParams inp (some roi)) = true :=
+  roi_spec _ inp roi source_params_known hin hwf hedge hm
+
+/-- the repaired source (`proposed_fixes/C16-*.diff`) satisfies the full-strength statements -/
+theorem fixed_getWindow (roi : Roi) (width height : Int)
+    (hwf : roi.wf = true) (hw : 0 < width) (hh : 0 < height) :
+    getWindow Params.fixed roi width height = windowSpec roi width height :=
+  getWindow_eq_spec _ roi width height hwf hw hh rfl
+
+theorem fixed_read_spec (inp : Input) :
+    specRead inp 0 0 (readDS Params.fixed inp 0 0 inp.rows inp.cols) = true :=
+  read_spec _ inp rfl rfl
+
+theorem fixed_roi_spec (inp : Input) (roi : Roi) (hin : inp.wf = true) (hwf : roi.wf = true) :
+    specRoi inp roi (readDS Params.fixed inp 0 0 inp.rows inp.cols) (createDataset Params.fixed inp (some roi)) = true :=
+  roi_spec _ inp roi rfl hin hwf rfl rfl
+
+/-- the hypotheses `edgeFree` / `maskOk` cost nothing exactly when the source uses the non-strict
+    comparisons / `!=`: then the source theorems above are the full-strength statements -/
+theorem source_hyps_vacuous_when_fixed (h : Generated.imgToolsParams = Params.fixed)
+    (roi : Roi) (w ht : Int) (inp : Input) :
+    edgeFree Generated.imgToolsParams roi w ht = true ∧ maskOk Generated.imgToolsParams inp = true := by
+  rw [h]; exact ⟨rfl, rfl⟩
+
+end Pandora.C16
